@@ -360,12 +360,15 @@ func chooseUtxos(native *native.NativeService, chainID uint64, amount int64, out
 	toSort := new(Utxos)
 	toSort.Utxos = result
 	sort.Sort(sort.Reverse(toSort))
-	idx := 0
 	for _, v := range toSort.Utxos {
-		for utxos.Utxos[idx].Op.String() != v.Op.String() {
-			idx++
+		// equal-valued utxos may come out of the two (unstable) sorts in different orders,
+		// so every selected outpoint is looked up from the start
+		for idx := range utxos.Utxos {
+			if utxos.Utxos[idx].Op.String() == v.Op.String() {
+				utxos.Utxos = append(utxos.Utxos[:idx], utxos.Utxos[idx+1:]...)
+				break
+			}
 		}
-		utxos.Utxos = append(utxos.Utxos[:idx], utxos.Utxos[idx+1:]...)
 	}
 	putUtxos(native, chainID, utxoKey, utxos)
 	return result, int64(sum), int64(fee), nil
